@@ -184,6 +184,10 @@ def run(chk, only_corpus=False):
         "roundtrip_partial whose lexical hypothesis lex_print_ok_b (lexing the printed bytes yields the token-level print) "
         "is NOT proved in general; the driver evaluates it on every accepted executable document and reports "
         "corr:C05/lex-print if it fails although all strings are re-quotable",
+        "attribution of a round-trip failure of the implementation to a listed finding is by syntactic triggers on the "
+        "implementation's own tree (ocaml/c05/driver.ml rt_cause: NUL inside a string, a string that is not re-quotable "
+        "per the extracted string_stable_b / description_stable_b, a body-less definition followed by another definition, "
+        "a line-continued single-line description); anything else that fails to round-trip is a VIOLATION",
         "block-string descriptions are compared by BlockStringValue (harness/gqldump.BlockStringValue, written for this "
         "check) because the printer re-indents them by design",
         "goroutine stack exhaustion at about 3e6 nesting levels (lists, list types, selection sets) is outside every "
